@@ -123,19 +123,33 @@ func (ds *Dataset) resetFullSync() {
 }
 
 func (ds *Dataset) StartFullSyncWithLease(fullSyncID string) error {
+	_, err := ds.StartFullSyncWithLeaseGen(fullSyncID)
+	return err
+}
+
+// StartFullSyncWithLeaseGen is StartFullSyncWithLease and also returns the generation of the sync it started, to be
+// handed to EndFullSync by the request that ends the sync.
+func (ds *Dataset) StartFullSyncWithLeaseGen(fullSyncID string) (uint64, error) {
 	ds.WriteLock.Lock()
 	defer ds.WriteLock.Unlock()
 	ds.startFullSync()
 	ds.fullSyncID = fullSyncID
 	ds.fullSyncLeased = true
 
-	return ds.refreshFullSyncLease(fullSyncID)
+	return ds.fullSyncGen, ds.refreshFullSyncLease(fullSyncID)
 }
 
 func (ds *Dataset) RefreshFullSyncLease(fullSyncID string) error {
+	_, err := ds.RefreshFullSyncLeaseGen(fullSyncID)
+	return err
+}
+
+// RefreshFullSyncLeaseGen is RefreshFullSyncLease and also returns the generation of the sync the request was
+// accepted into.
+func (ds *Dataset) RefreshFullSyncLeaseGen(fullSyncID string) (uint64, error) {
 	ds.WriteLock.Lock()
 	defer ds.WriteLock.Unlock()
-	return ds.refreshFullSyncLease(fullSyncID)
+	return ds.fullSyncGen, ds.refreshFullSyncLease(fullSyncID)
 }
 
 func (ds *Dataset) refreshFullSyncLease(fullSyncID string) error {
@@ -197,6 +211,24 @@ func (ds *Dataset) ReleaseFullSyncLease(fullSyncID string) error {
 		ds.fullSyncLease.cancel()
 	}
 	return nil
+}
+
+// EndFullSync releases the lease of the HTTP full sync (fullSyncID, gen) and completes that sync under one hold of
+// the lock: a sync that starts while the end request is being handled can neither be completed by it nor lose its
+// lease to it. gen is what StartFullSyncWithLeaseGen / RefreshFullSyncLeaseGen returned to this request. leaseFound
+// is false when that sync is not the current leased one (any more).
+func (ds *Dataset) EndFullSync(ctx context.Context, fullSyncID string, gen uint64) (leaseFound bool, err error) {
+	verifhook.Point("ds.completeFullSync.begin")
+	ds.WriteLock.Lock()
+	defer ds.WriteLock.Unlock()
+	if ds.fullSyncLease == nil || !ds.fullSyncStarted || ds.fullSyncID != fullSyncID || ds.fullSyncGen != gen {
+		return false, errors.New("no active fullsync lease found, can't complete")
+	}
+	ds.fullSyncLease.released = true
+	if ds.fullSyncLease.cancel != nil {
+		ds.fullSyncLease.cancel()
+	}
+	return true, ds.completeFullSync(ctx)
 }
 
 // CompleteFullSync Full sync completed - mark unseen entities as deleted
